@@ -31,7 +31,7 @@
                            reached its trigger (true when delay >= 0 and the loop is not
                            blocked, except for the exact tie send instant = tick instant with
                            the tick taken first). *)
-From Got Require Import Base Delayed DelayedProofs.
+From Got Require Import Base Heap Delayed DelayedProofs.
 Require Import Permutation Sorted.
 Local Open Scope Z_scope.
 
@@ -109,6 +109,12 @@ Print Assumptions delayed_release_sorted_per_queue.
 Theorem delayed_sorted_list_pq_ok : dl_pq_ok dl_sorted_pq (StronglySorted dl_le).
 Proof. exact dl_sorted_pq_ok. Qed.
 Print Assumptions delayed_sorted_list_pq_ok.
+
+(* ... and by the faithful model of container/heap (coq/lib/Heap.v) with taskDelayed.Less: every
+   theorem above therefore holds for the loop running on std.PriorityQueue as modelled *)
+Theorem delayed_container_heap_pq_ok : dl_pq_ok dl_heap_pq (Heap.hp_heap dl_less).
+Proof. exact dl_heap_pq_ok. Qed.
+Print Assumptions delayed_container_heap_pq_ok.
 
 (* non-vacuity: a history with ticks 1000 apart, delay 0 (id 1: trigger = send instant 1500),
    equal deadlines (ids 2,3), 40 outstanding requests (more than the heap's initial capacity
